@@ -185,13 +185,16 @@ Proof.
   intros C reg T ph s. destruct s as [x has_sub rhs loops | xs f args kwn |]; simpl.
   - pose proof (loops_rel C (relA C) (relA_refl C) (relA_trans C)
                           (fun T ph x k => relA_tset C T ph x (Some k)) ph loops T) as HL.
+    match goal with |- context [raised C ?t] => destruct (raised C t); [exact I|] end.
     destruct has_sub.
     + split; [exact HL | exact I].
     + match goal with |- context [kmap C reg ?g ?l rhs] => destruct (kmap C reg g l rhs) as [k|e] end.
-      * split; [eapply relA_trans; [exact HL | apply relA_tset]|]. unfold postA. simpl. apply tset_key.
+      * match goal with |- context [raised C ?t] => destruct (raised C t); [exact I|] end.
+        split; [eapply relA_trans; [exact HL | apply relA_tset]|]. unfold postA. simpl. apply tset_key.
       * destruct e; auto.
   - destruct (kcall reg f (map (kmap C reg (sg T) (local_of T ph)) args) kwn) as [ks|e] eqn:E.
-    + split.
+    + match goal with |- context [raised C ?t] => destruct (raised C t); [exact I|] end.
+      split.
       * apply (set_many_rel C (relA C) (relA_refl C) (relA_trans C)
                             (fun T ph x k => relA_tset C T ph x (Some k))).
       * unfold postA. simpl. destruct (kcall_inv _ _ _ _ _ E) as [s0 [Hf Hlen]]. exists s0.
@@ -212,6 +215,26 @@ Proof.
   intros C forced. unfold apply_forced. induction forced as [|[[ph x] k] forced IH]; intros T; simpl.
   - apply relA_refl.
   - eapply relA_trans; [apply relA_tset | apply IH].
+Qed.
+
+Lemma apply_loops_relA : forall C D T, relA C T (apply_loops C D T).
+Proof.
+  intros C D. unfold apply_loops. induction (items_of D) as [|[ph s] l IH]; intros T; simpl.
+  - apply relA_refl.
+  - eapply relA_trans; [|apply IH]. destruct s; simpl; try apply relA_refl.
+    apply (loops_rel C (relA C) (relA_refl C) (relA_trans C) (fun T ph x k => relA_tset C T ph x (Some k))).
+Qed.
+
+(* unfolding `infer` *)
+Lemma infer_inv : forall C reg fo fi D forced T,
+  infer C reg fo fi D forced = Ok T ->
+  let T0 := apply_loops C D (apply_forced C forced init_table) in
+  raised C T0 = None /\ outer C reg fo fi D T0 = Ok T /\ final_check C reg T D = None.
+Proof.
+  intros C reg fo fi D forced T H T0. unfold infer in H. fold T0 in H.
+  destruct (raised C T0); [discriminate|].
+  destruct (outer C reg fo fi D T0) as [T1|e]; [|discriminate].
+  destruct (final_check C reg T1 D) eqn:E; [discriminate|]. inversion H; subst. auto.
 Qed.
 
 Lemma final_check_calls : forall C reg T D,
@@ -264,12 +287,11 @@ Theorem infer_keys : forall C reg fo fi D forced T,
   (forall ph stmts xs f args kwn x, In (ph, stmts) D -> In (SCall xs f args kwn) stmts -> In x xs ->
                                     lookup T ph x <> None).
 Proof.
-  intros C reg fo fi D forced T Hinit H. unfold infer in H.
-  destruct (outer C reg fo fi D (apply_forced C forced init_table)) as [T1|e] eqn:E; [|discriminate].
-  destruct (final_check C reg T1 D) as [e|] eqn:Ef; [discriminate|]. inversion H; subst T1. clear H.
+  intros C reg fo fi D forced T Hinit H. destruct (infer_inv _ _ _ _ _ _ _ H) as [_ [E Ef]]. clear H.
   apply (outer_gen C reg (relA C) (fun _ => True) (postA reg) (relA_refl C) (relA_trans C)) in E.
   - destruct E as [[_ Hwf] [HP _]]. split; [|split].
-    + apply Hwf. apply (apply_forced_relA C forced init_table). apply init_table_twf. exact Hinit.
+    + apply Hwf. apply (apply_loops_relA C D). apply (apply_forced_relA C forced init_table).
+      apply init_table_twf. exact Hinit.
     + intros ph stmts x rhs loops HD Hs.
       assert (Hin : In (ph, SAssign x false rhs loops) (items_of D)) by (apply in_items_of; eauto).
       apply HP in Hin. exact Hin.
